@@ -1333,6 +1333,9 @@ class Interp:
         if len(items) <= 1:
             return ListV(items)
         tag = ','.join(_prov(x) for x in items)
+        extra = ';'.join('%s=%s' % (kk, _prov(vv)) for kk, vv in sorted(k.items())) if isinstance(k, dict) else ''
+        if extra:
+            tag += ';' + extra
         if all(isinstance(x, TupleV) for x in items) and len({len(x.items) for x in items}) == 1:
             ar = len(items[0].items)
             return ListV([TupleV([Sym('sorted%d(%s).%d' % (i, tag, j)) for j in range(ar)]) for i in range(len(items))])
